@@ -11,7 +11,13 @@
 * Loop-free harnesses over full-domain symbolic scalars are COMPLETE proofs (no unwinding involved);
   harnesses with "bounded": true in the config are bounded stand-ins and are reported as such.
 """
-import os, re, json, shutil, subprocess, time, glob, tempfile
+import os, re, json, shutil, subprocess, time, glob, tempfile, resource
+
+
+def _limit_mem():
+    # CBMC can balloon on harnesses that allocate; cap the address space so a runaway solver dies instead of the box
+    cap = int(os.environ.get("VERIF_KANI_MEM_GB", "20")) * 1024 ** 3
+    resource.setrlimit(resource.RLIMIT_AS, (cap, cap))
 
 VERIF = os.path.dirname(os.path.dirname(os.path.abspath(__file__)))
 REPO = os.environ.get("VERIF_REPO", "/repo")
@@ -74,7 +80,7 @@ def run(prop, cfg, work, seed):
             t0 = time.time()
             rec = {"harness": h["name"], "function": h.get("function"), "bounded": bool(h.get("bounded")), "bound": h.get("bound", "none (loop-free, full symbolic domain)"), "cmd": " ".join(cmd)}
             try:
-                p = subprocess.run(cmd, cwd=scratch, env=env, capture_output=True, text=True, timeout=h.get("timeout", 900))
+                p = subprocess.run(cmd, cwd=scratch, env=env, capture_output=True, text=True, timeout=h.get("timeout", 900), preexec_fn=_limit_mem)
                 txt = p.stdout + "\n" + p.stderr
                 rec["wall_s"] = round(time.time() - t0, 1)
                 if "VERIFICATION:- SUCCESSFUL" in txt:
@@ -83,6 +89,11 @@ def run(prop, cfg, work, seed):
                     mm = re.search(r"SUMMARY:\s*\n\s*\*\* (\d+) of (\d+) failed", txt)
                     if mm:
                         rec["checks"] = int(mm.group(2))
+                elif "VERIFICATION:- FAILED" in txt and re.search(r"\*\* 0 of \d+ failed", txt):
+                    # no property failed: Kani could not determine some check (unwinding assertion,
+                    # unsupported construct reachable); that is not a counterexample
+                    rec["status"] = "UNDETERMINED"
+                    rec["trace"] = txt[-1500:]
                 elif "VERIFICATION:- FAILED" in txt:
                     rec["status"] = "FAILED"
                     fm = re.search(r"Failed Checks: (.*)", txt)
@@ -90,6 +101,9 @@ def run(prop, cfg, work, seed):
                     cv = re.search(r"Concrete playback unit test.*?```\n(.*?)```", txt, re.S)
                     rec["concrete_values"] = cv.group(1)[:3000] if cv else None
                     rec["trace"] = txt[-3000:]
+                elif "out of memory" in txt.lower() or "bad_alloc" in txt or "memory exhausted" in txt.lower():
+                    rec["status"] = "OUT_OF_MEMORY"
+                    rec["trace"] = txt[-1000:]
                 else:
                     rec["status"] = "ERROR"
                     rec["trace"] = txt[-2000:]
@@ -97,5 +111,6 @@ def run(prop, cfg, work, seed):
                 rec["status"] = "TIMEOUT"
                 rec["wall_s"] = round(time.time() - t0, 1)
             out["harnesses"].append(rec)
-    shutil.rmtree(scratch, ignore_errors=True)
+    if not os.environ.get("VERIF_KANI_KEEP"):
+        shutil.rmtree(scratch, ignore_errors=True)
     return out
